@@ -1,6 +1,6 @@
 SPECIFICATION Spec
 CONSTANTS
-  MaxH = 3
+  MaxH = 2
   MaxRestarts = 1
   FullNode = TRUE
   Cap = 2
@@ -10,7 +10,7 @@ CONSTANTS
   Direct = FALSE
   MidCrash = TRUE
   Timeouts = FALSE
-  MaxWriteFaults = 0
+  MaxWriteFaults = 2
 INVARIANT ContainerOK
 INVARIANT TopIsHeight
 INVARIANT StorageShape
